@@ -1,11 +1,11 @@
 """C17 -- bundled genetic-code tables: loader correspondence, independent NCBI oracle, immutability checks."""
 import os, re, ast, json, itertools
-from framework import coq_N
+from framework import coq_N, coq_bs
 
 ID = 'C17'
-COQ_IMPORTS = ['C17_Model', 'G_gc_all'] + ['G_gcrec_%d' % i for i in
+COQ_IMPORTS = ['C17_Model', 'C17_Convert', 'G_codes', 'G_gc_all'] + ['G_gcrec_%d' % i for i in
                (1, 2, 3, 4, 5, 6, 9, 10, 11, 12, 13, 14, 15, 16, 21, 22, 23, 24, 25, 26, 27, 28, 29, 30, 31, 32, 33)]
-GENERATORS = ['gen_codes', 'gen_gcode_json', 'gen_gcode_prt', 'gen_gcode_records']
+GENERATORS = ['gen_codes', 'gen_gcode_json', 'gen_gcode_prt', 'gen_gcode_records', 'gen_gcode_prt_text', 'gen_gcode_conv']
 EXTRA_TARGETS = []
 COQCHK = False
 COQCHK_NOTE = ('not run for C17: the 27 table theorems are vm_compute enumerations of 3375 codons each; coqchk re-checks them '
@@ -22,13 +22,28 @@ TRUSTED = ['json.load, set(), functools.lru_cache, importlib.resources (loader o
            'battery of library calls -- testing, not proof']
 ASSUMPTIONS = ['in the Coq model library operations are pure functions of the tables; immutability of the shared Python objects '
                'behind lru_cache is checked statically/dynamically only']
-LEVEL_TEXT = ('Complete enumeration inside Coq (vm_compute, 27 tables x 15^3 codons, bound stated in the theorem) of every clause of the '
-              'property against the NCBI definition parsed independently from gc.prt and the hand-written IUPAC code; tables are '
-              'regenerated from /repo on every run so the theorems are re-checked against what gcode() loads now; the loader is tied by '
-              'comparing gcode(id) with the regenerated tables; the history clause is partial (static AST rule + snapshot testing).')
-LEVEL_NOTE = ('Trusted: Coq kernel/vm_compute; tools/gens/gcode.py (translator incl. the gc.prt parser); json/set/lru_cache of CPython. '
-              'No axioms. Not proved: that no Python operation mutates the cached Attr objects (checked by AST rule and snapshots).')
-TECHNIQUE = 'Coq finite-domain theorems (forallb by vm_compute, lifted) over tables regenerated from /repo + loader correspondence'
+LEVEL_TEXT = ('(a) Complete enumeration inside Coq (vm_compute, 27 tables x 15^3 codons, bound stated in the theorem) of every clause of the '
+              'property against the NCBI definition parsed independently from gc.prt and the hand-written IUPAC code '
+              '(C17_ids, C17_tables_match_ncbi, C17_ttinv_sound, C17_codes_are_iupac); tables are regenerated from /repo on every run. '
+              '(b) The generator convert.py is modelled line by line in Gallina (C17_Convert: filter_line, the parsing loop with its '
+              'NameError/ValueError/IndexError/KeyError behaviour, generate_gc with the three loops over the alphabet and the growing tt); '
+              'C17_convert_reproduces_json: the model run inside Coq on the regenerated text of gc.prt and on sugar.data.CODES reproduces '
+              'every table of gc.json (27 generated finite theorems G_gcconv_<id>.conv_matches_json). '
+              '(c) Unbounded, for ANY ncbieaa/sncbieaa lines (any base table) and any alphabet whose expansions are base codons: '
+              'C17_generate_gc_spec (no exception; tt answers base entry / common amino acid of all expansions / nothing), '
+              'C17_entry_iff_expansions_agree, C17_base_entries, C17_starts_stops, C17_ambiguous_sets, C17_ttinv_rows, C17_ttinv_keys, '
+              'C17_generate_gc_index_error; C17_codes_instance: sugar.data.CODES satisfies the side condition, so the 27 shipped tables are instances. '
+              'The loader gcode() is tied by comparing gcode(id) with the regenerated tables; the model of convert.py is tied by running the '
+              'real script (runpy, scratch cwd, patched CODES) on synthetic gc.prt-like texts and alphabets and comparing with the model; '
+              'the history clause is partial (static AST rule + snapshot testing).')
+LEVEL_NOTE = ('Trusted: Coq kernel/vm_compute; tools/gens/gcode.py, gcode_thm.py, c17.py (translators incl. the independent gc.prt parser); '
+              'json/set/lru_cache/runpy of CPython. No axioms. Not proved: that no Python operation mutates the cached Attr objects '
+              '(checked by AST rule and snapshots only). The model of convert.py treats Python sets as lists in the key order of CODES; '
+              'fields filled while iterating a set (ambiguous part of tt, astarts, astops) are compared as sets. Domain of the convert.py tie: '
+              'ASCII text, id fields without sign/underscore, alphabets whose value letters are bases or no code letters (otherwise line 47 '
+              'depends on the hash order of a set).')
+TECHNIQUE = ('Coq finite-domain theorems (forallb by vm_compute, lifted) over tables regenerated from /repo + line-by-line Gallina model of '
+             'convert.py executed in Coq on the regenerated gc.prt + unbounded theorems (induction) about generate_gc + loader/generator correspondence')
 
 IDS = (1, 2, 3, 4, 5, 6, 9, 10, 11, 12, 13, 14, 15, 16, 21, 22, 23, 24, 25, 26, 27, 28, 29, 30, 31, 32, 33)
 IUPAC = {'A': 'A', 'C': 'C', 'G': 'G', 'T': 'T', 'R': 'AG', 'Y': 'CT', 'S': 'CG', 'W': 'AT', 'K': 'GT', 'M': 'AC',
@@ -63,6 +78,184 @@ def expected(tid, codon):
     return [aas.pop() if len(aas) == 1 else None, (not amb) and anystart, (not amb) and anystop, amb and anystart, amb and anystop]
 
 
+
+# ---- convert.py (gc.prt -> gc.json): the real script is run on synthetic gc.prt-like texts / alphabets ----------------------
+
+STD_AA = 'FFLLSSSSYY**CC*WLLLLPPPPHHQQRRRRIIIMTTTTNNKKSSRRVVVVAAAADDEEGGGG'
+AMBIG = [('R', 'AG'), ('Y', 'CT'), ('S', 'GC'), ('W', 'AT'), ('K', 'GT'), ('M', 'AC'), ('B', 'CGT'), ('D', 'AGT'), ('H', 'ACT'),
+         ('V', 'ACG'), ('N', 'ACGT')]
+
+
+def _gen_codes(rng, full_ok):
+    r = rng.random()
+    if full_ok and r < .5:
+        return 'CODES'
+    base = [[b, b] for b in 'ACGT']
+    extra = [list(x) for x in rng.sample(AMBIG, rng.randrange(0, 4))]
+    codes = base + extra
+    w = rng.random()
+    if w < .12:
+        codes.append(['n', 'ACGT'])                       # another spelling of a code letter
+    elif w < .24:
+        codes.append(['Q', rng.choice(['AU', 'U', 'XA'])])   # a value letter that is no key: tt[...] raises KeyError
+    elif w < .32:
+        codes = [c for c in codes if c[0] != 'G']         # alphabet without one base
+    elif w < .40:
+        codes.append(['Z', ''])                           # no expansion at all
+    elif w < .48:
+        codes.append(['E', rng.choice(['AA', 'CAC', 'TT'])])   # repeated letters in a value
+    elif w < .54:
+        codes = [c if c[0] != 'T' else ['T', 'TC'] for c in codes]   # a base letter that is ambiguous
+    if rng.random() < .5:
+        codes += [['.', '.'], ['-', '-']]
+    rng.shuffle(codes)
+    return codes
+
+
+def _gen_prt(rng, max_tables):
+    lines = []
+    if rng.random() < .5:
+        lines.append('--  This is a genetic code table, name "no" id 9')
+    if rng.random() < .6:
+        lines.append('Genetic-code-table ::= {')
+    nt = rng.choice([0, 1, 1, 1, 1, 2, 2, 2, 3][:5 + 2 * max_tables])
+    for k in range(nt):
+        ind = rng.choice([' ', '  ', '\t', '', ' \t '])
+        blk = []
+        names = rng.choice([['Standard', 'SGC0'], ['Yeast Mitochondrial', 'SGC2'], ['SGC9', 'Late, but "quoted"'], ['One'],
+                            ['the name of names'], ['sgc lower'], ['Mold; Protozoan; Coelenterate', 'SGC3'], ['Alt', ' SGC7 ']])
+        if rng.random() < .08:
+            names = rng.choice([[], [' SGC0 ']])
+        for nm in names:
+            blk.append('name "%s" ,' % nm)
+        idv = rng.choice(['1', '2', '4', '11', '33', '1', '007', '12,3', '"5"', '6 ']) if rng.random() < .9 else \
+            rng.choice(['x', '', '1 2', 'entifier 5', '3.0', '0x1'])
+        idl = 'id %s ,' % idv
+        aa = list(STD_AA)
+        for _ in range(rng.choice([0, 1, 2, 5, 20])):
+            aa[rng.randrange(64)] = rng.choice('ACDEFGHIKLMNPQRSTVWY*')
+        aa = ''.join(aa)
+        sc = ['-'] * 64
+        for _ in range(rng.choice([0, 1, 3, 6])):
+            sc[rng.randrange(64)] = 'M'
+        for _ in range(rng.choice([0, 1, 3, 4, 10])):
+            sc[rng.randrange(64)] = '*'
+        sc = ''.join(sc)
+        q = rng.random()
+        if q < .05:
+            aa = aa[:rng.choice([0, 10, 63])]
+        elif q < .10:
+            sc = sc[:rng.choice([0, 63])]
+        elif q < .15:
+            aa += 'XY'
+            sc += '*'
+        aal = 'ncbieaa  "%s",' % aa
+        scl = 'sncbieaa "%s"' % sc
+        body = [idl, aal, scl]
+        q = rng.random()
+        if q < .06:
+            body = [idl, scl, aal]                         # the sncbieaa line comes first: the previous table's aas (or NameError)
+        elif q < .10:
+            body = [aal, scl]                              # no id line
+        elif q < .14:
+            body = [idl, scl]
+        elif q < .18:
+            body = [aal, idl, scl]
+        blk += body
+        if rng.random() < .5:
+            blk.append('-- Base1  ' + 'T' * 16 + 'C' * 16 + 'A' * 16 + 'G' * 16)
+        lines.append(' {')
+        lines += [ind + b for b in blk]
+        lines.append(' }' + (',' if k + 1 < nt else ''))
+    if rng.random() < .6:
+        lines.append('}')
+    nl = rng.choice(['\n', '\n', '\n', '\r\n', '\r'])
+    text = nl.join(lines)
+    if rng.random() < .7:
+        text += nl
+    return text
+
+
+def _chunks(s):
+    return sorted(s[i:i + 3] for i in range(0, len(s), 3))
+
+
+def _canon_json(gcs):
+    """what gcode() would expose of each table of a gc.json object (sets / dict content, no orders)"""
+    out = []
+    for key, t in gcs.items():
+        out.append([int(key), t['id'], t['name'], t['aa_line'], t['sc_line'], sorted(c + a for c, a in t['tt'].items()),
+                    sorted(a + ''.join(sorted(cs)) for a, cs in t['ttinv'].items()),
+                    sorted(t['starts']), sorted(t['astarts']), sorted(t['stops']), sorted(t['astops'])])
+    return sorted(out)
+
+
+def _canon_model(mv):
+    out = []
+    for key, gid, name, aa, sc, tt, ttinv, starts, astarts, stops, astops in mv:
+        out.append([key, gid, name, aa, sc, sorted(tt), sorted(r[0] + ''.join(_chunks(r[1:])) for r in ttinv),
+                    _chunks(starts), _chunks(astarts), _chunks(stops), _chunks(astops)])
+    return sorted(out)
+
+
+def run_convert(text, codes):
+    """run the real script sugar/data/data_gcode/convert.py in a scratch directory (it reads ./gc.prt and writes ./gc.json)"""
+    import runpy, shutil, tempfile
+    import sugar.data
+    path = os.path.join(os.path.dirname(sugar.data.__file__), 'data_gcode', 'convert.py')
+    d = tempfile.mkdtemp(prefix='C17-conv-')
+    cwd = os.getcwd()
+    old = sugar.data.CODES
+    try:
+        with open(os.path.join(d, 'gc.prt'), 'w', newline='') as f:
+            f.write(text)
+        os.chdir(d)
+        if codes != 'CODES':
+            sugar.data.CODES = {k: v for k, v in codes}
+        runpy.run_path(path, run_name='__main__')
+        with open(os.path.join(d, 'gc.json')) as f:
+            return json.load(f)
+    finally:
+        os.chdir(cwd)
+        sugar.data.CODES = old
+        shutil.rmtree(d, ignore_errors=True)
+
+
+def _conv_spec(case, got):
+    """property clauses on every table the script produced, from its own aa_line / sc_line and the alphabet of the case"""
+    if isinstance(got, dict):
+        return None
+    import sugar.data
+    codes = dict(sugar.data.CODES) if case['codes'] == 'CODES' else {k: v for k, v in case['codes']}
+    letters = [k for k in codes if k not in '.-']
+    if any(x not in 'TCAG' for k in letters for x in codes[k]):
+        return None
+    base = [a + b + c for a in 'TCAG' for b in 'TCAG' for c in 'TCAG']
+    for key, gid, name, aa, sc, tt, ttinv, starts, astarts, stops, astops in got:
+        if key != gid:
+            return 'table stored under key %r has id %r' % (key, gid)
+        amino = dict(zip(base, aa))
+        ttd = {x[:3]: x[3] for x in tt}
+        if starts != sorted(c for c, f in zip(base, sc) if f == 'M') or stops != sorted(c for c, f in zip(base, sc) if f == '*'):
+            return 'table %d: starts/stops %r %r do not follow sc_line %r' % (key, starts, stops, sc)
+        if ttinv != sorted(a + ''.join(sorted(c for c in base if amino[c] == a)) for a in set(aa[:64])):
+            return 'table %d: ttinv is not the inverse of the 64 base codons' % key
+        for c in [a + b + d for a in letters for b in letters for d in letters] + base:
+            ex = [c] if c in base else [x + y + z for x in codes[c[0]] for y in codes[c[1]] for z in codes[c[2]]]
+            aas = {amino[e] for e in ex}
+            want = aas.pop() if len(aas) == 1 else None
+            if ttd.get(c) != want:
+                return 'table %d: tt[%s] = %r, expansions %r give %r' % (key, c, ttd.get(c), ex, want)
+            if c not in base:
+                for nm, lst, flag in (('astarts', astarts, 'M'), ('astops', astops, '*')):
+                    w = any(sc[base.index(e)] == flag for e in ex)
+                    if (c in lst) != w:
+                        return 'table %d: %s in %s is %r, expansions %r flagged: %r' % (key, c, nm, c in lst, ex, w)
+        if set(ttd) - set(a + b + d for a in letters for b in letters for d in letters) - set(base):
+            return 'table %d: tt has keys outside the alphabet' % key
+    return None
+
+
 def gen_cases(rng, tier):
     cases = []
     for t in IDS:
@@ -72,10 +265,20 @@ def gen_cases(rng, tier):
         cases.append({'id': t, 'ttinv': True})
     for _ in range(12000 if tier == 'thorough' else 1500):
         cases.append({'id': rng.choice(IDS), 'codon': ''.join(rng.choice(LETTERS) for _ in range(3))})
+    # convert.py on synthetic inputs; the expensive ones (whole IUPAC alphabet: 3375 codons per table inside Coq) are spread
+    # over the shards of 400 cases
+    nfull, nsmall = (24, 600) if tier == 'thorough' else (4, 90)
+    for _ in range(nsmall):
+        cases.append({'conv': 1, 'codes': _gen_codes(rng, False), 'text': _gen_prt(rng, 2)})
+    step = max(1, len(cases) // (nfull + 1))
+    for k in range(nfull):
+        cases.insert(min(len(cases), 7 + k * step), {'conv': 1, 'codes': 'CODES', 'text': _gen_prt(rng, 0)})
     return cases
 
 
 def impl(case):
+    if case.get('conv'):
+        return _canon_json(run_convert(case['text'], case['codes']))
     from sugar.data import gcode
     gc = gcode(case['id'])
     assert gc.id == case['id']
@@ -86,19 +289,35 @@ def impl(case):
     return [gc.tt.get(c), c in gc.starts, c in gc.stops, c in gc.astarts, c in gc.astops]
 
 
+def split_model(case, m):
+    if case.get('conv'):
+        return bool(m[0]), (_canon_model(m[1]) if isinstance(m[1], list) else m[1])
+    return True, m
+
+
 def agree(case, iv, mv):
     if case.get('ttinv') and isinstance(mv, list):      # row order / codon order of the JSON file are not part of the claim
         mv = sorted([a, sorted(cs)] for a, cs in mv)
     return iv == mv
 
 
+def _coq_codes(codes):
+    if codes == 'CODES':
+        return 'CODES'
+    return '[' + '; '.join('(x%02x, %s)' % (ord(k), coq_bs(v) if v else '[]') for k, v in codes) + ']'
+
+
 def model_term(case):
+    if case.get('conv'):
+        return 'out (run_C17_conv %s %s)' % (_coq_codes(case['codes']), coq_bs(case['text']) if case['text'] else '[]')
     if case.get('ttinv'):
         return 'out (run_C17_ttinv G_gcrec_%d.rec)' % case['id']
     return 'out (run_C17 G_gcrec_%d.rec %s)' % (case['id'], coq_N(codon_num(case['codon'])))
 
 
 def spec(case, got):
+    if case.get('conv'):
+        return _conv_spec(case, got)
     if isinstance(got, dict):
         return 'raised ' + got['e']
     if case.get('ttinv'):
@@ -117,6 +336,10 @@ def spec(case, got):
 
 
 def nontrivial(case, got):
+    if case.get('conv'):
+        if isinstance(got, dict):
+            return 'conv:' + got['e']
+        return 'conv:%d tables, %d tt entries, %d astops' % (len(got), sum(len(t[5]) for t in got), sum(len(t[10]) for t in got))
     if case.get('ttinv'):
         return 'ttinv'
     if any(ch not in 'ACGT' for ch in case['codon']) or (isinstance(got, list) and any(got[1:])):
@@ -125,6 +348,9 @@ def nontrivial(case, got):
 
 
 def histkey(case, got):
+    if case.get('conv'):
+        return ['convert.py: ' + (got['e'] if isinstance(got, dict) else '%d tables' % len(got)),
+                'convert.py alphabet: ' + ('CODES' if case['codes'] == 'CODES' else '%d letters' % len(case['codes']))]
     if case.get('ttinv'):
         return ['ttinv', 'table=%d' % case['id']]
     n = sum(ch not in 'ACGT' for ch in case['codon'])
@@ -132,6 +358,9 @@ def histkey(case, got):
 
 
 def python_snippet(case):
+    if case.get('conv'):
+        return ("import sys; sys.path.insert(0, '/verif/tools/props'); sys.path.insert(0, '/verif/tools'); import c17; "
+                "print(c17.run_convert(%r, %r))" % (case['text'], case['codes']))
     if case.get('ttinv'):
         return "from sugar.data import gcode; print({k: sorted(v) for k, v in gcode(%d).ttinv.items()})" % case['id']
     return ("from sugar.data import gcode; gc=gcode(%d); c=%r; print(gc.tt.get(c), c in gc.starts, c in gc.stops, c in gc.astarts, c in gc.astops)"
@@ -291,5 +520,5 @@ def search_cases(broken, rng):
         for c in itertools.product(LETTERS, repeat=3):
             yield {'id': t, 'codon': ''.join(c)}
 
-MODELLED_FUNCS = {'sugar/data/__init__.py': ['gcode']}
-NO_SHRINK_KEYS = {'ttinv', 'id'}
+MODELLED_FUNCS = {'sugar/data/__init__.py': ['gcode'], 'sugar/data/data_gcode/convert.py': ['generate_gc', 'filter_line']}
+NO_SHRINK_KEYS = {'ttinv', 'id', 'conv', 'codes'}
